@@ -18,7 +18,9 @@ def expected : List Expected := [
   { func := "Runner.builtin", kind := "readpassword", operand := "", owner := "interp",
     rel := .external, why := "read -s on a terminal only" },
   { func := "Runner.builtin", kind := "scan", operand := "scanner", owner := "interp",
-    rel := .unreleased, why := "mapfile/readarray: bufio.Scanner over r.stdin without read deadline or context (known finding C31-mapfile-not-cancellable)" },
+    rel := .deadline, why := "mapfile/readarray: since 5c04a9d the same context.AfterFunc + SetReadDeadline as readLine is armed around the scanner loop" },
+  { func := "Runner.builtin", kind := "chan-recv", operand := "stopc", owner := "interp",
+    rel := .peer ["afterfunc"], why := "mapfile: only when the AfterFunc has started; it closes stopc right after SetReadDeadline" },
   { func := "Runner.readLine+closure", kind := "chan-recv", operand := "stopc", owner := "interp",
     rel := .peer ["afterfunc"], why := "only when the AfterFunc has started; it closes stopc right after SetReadDeadline" },
   { func := "Runner.readLine", kind := "read", operand := "r.stdin", owner := "interp",
@@ -41,6 +43,12 @@ def expected : List Expected := [
     rel := .unreleased, why := "<(…): opening the FIFO blocks until the consumer opens the other end; neither deadline nor context (known finding C31-procsubst-fifo-open)" },
   { func := "Runner.fillExpandConfig+go", kind := "openfile", operand := "path,os.O_RDONLY", owner := "procsubst",
     rel := .unreleased, why := ">(…): same, reading side" },
+  { func := "lockedWriter.Write", kind := "other:Lock", operand := "l.mu", owner := "interp",
+    rel := .peer ["memwrite"], why := "command substitution output (99867da): the mutex is only held across a write into the in-memory buffer" },
+  { func := "lockedWriter.Write", kind := "write", operand := "l.w", owner := "interp",
+    rel := .external, why := "the substitution's in-memory buffer (strings.Builder); does not block" },
+  { func := "lockedWriter.close", kind := "other:Lock", operand := "l.mu", owner := "interp",
+    rel := .peer ["memwrite"], why := "as lockedWriter.Write" },
   { func := "Runner.expandErr", kind := "write", operand := "r.stderr", owner := "interp",
     rel := .external, why := "stderr writer supplied by the embedder (or a pipe closed by the parent)" },
   { func := "Runner.out", kind := "write", operand := "r.stdout", owner := "interp",
@@ -76,12 +84,12 @@ def peers : List Peer := [
   { name := "procsubst-arrives", alsoNeeds := [] },              -- the goroutine reaching its OpenFile: unconditional
   { name := "afterfunc", alsoNeeds := [] },                      -- SetReadDeadline; close(stopc)
   { name := "hdoc-writer", alsoNeeds := [] },
+  { name := "memwrite", alsoNeeds := [] },                       -- a write into an in-memory buffer under lockedWriter's mutex
   { name := "stdin-copier", alsoNeeds := [] }
 ]
 
-/-- the operations nothing releases (each is an open known finding) -/
+/-- the operations nothing releases (the open known finding C31-procsubst-fifo-open) -/
 def unreleasedKeys : List String := [
-  "Runner.builtin|scan|scanner",
   "Runner.fillExpandConfig+go|openfile|path,os.O_WRONLY",
   "Runner.fillExpandConfig+go|openfile|path,os.O_RDONLY"
 ]
@@ -98,6 +106,10 @@ def stopCalls : List (String × String × Nat) := [
 /-- the only places that look at the context or arm a deadline -/
 def ctxUses : List (String × String × Nat) := [
   ("Runner.stop", "ctx.Err", 1),
+  ("Runner.Run", "ctx.Err", 1),                     -- 7cff692: a cancelled Run never reports success
+  ("Runner.builtin", "AfterFunc", 1),               -- 5c04a9d: mapfile
+  ("Runner.builtin+closure", "SetReadDeadline", 1),
+  ("Runner.builtin", "SetReadDeadline", 1),
   ("Runner.readLine", "AfterFunc", 1),
   ("Runner.readLine+closure", "SetReadDeadline", 2),
   ("DefaultExecHandler+closure", "CommandContext", 1),
